@@ -11,6 +11,9 @@ structure IfRec where
   img : List Nat
   st  : Option St
 
+/-- what recvfrom(sock, buf, MTU) can deliver; MTU 0 (the query succeeds with 0): the whole buffer -/
+def rxLimit (r : IfRec) : Nat := if r.cfg.mtu = 0 then r.img.length else r.cfg.mtu
+
 structure BlockSide where
   ifs  : Array (Option IfRec) := Array.replicate 8 none
   glob : Glob := {}
@@ -27,7 +30,7 @@ def testBit (m k : Nat) : Bool := (m / k) % 2 == 1
 def setIfaceAttr (c : Cfg) (creating : Bool) (k v : String) : Option Cfg :=
   let u32max := 4294967295
   match k with
-  | "mtu" => (parseDec v).bind (fun n => if n < 64 ∨ n > 65535 then none else some { c with mtu := n })   -- after creation: only up to the buffer size (checked by the caller)
+  | "mtu" => (parseDec v).bind (fun n => if (n < 64 ∧ !(n = 0 ∧ !creating)) ∨ n > 65535 then none else some { c with mtu := n })   -- after creation: only up to the buffer size (checked by the caller)
   | "mac" => (parseFixed v 6).map (fun m => { c with mac := m })
   | "flags" => (parseDec v).bind (fun n => if n > u32max then none else some { c with flags := n })
   | "iftype" => (parseDec v).bind (fun n => if n > u32max then none else some { c with iftype := n })
@@ -110,7 +113,7 @@ def blockStep (w : World) (b : BlockSide) (toks : List String)
     (parseIdx i 8).bind fun I =>
     (b.ifs[I]?.getD none).bind fun rec =>
     (parseHex hex).bind fun frame =>
-    if frame.length > rec.cfg.mtu then none else
+    if frame.length > rxLimit rec then none else
     let zero := rest == ["zero"]
     let img := recvInto rec.img frame zero
     let (st, w, fx, flt) := parseFrame rec.cfg b.glob w rec.st img
@@ -132,7 +135,7 @@ def blockStep (w : World) (b : BlockSide) (toks : List String)
       match b.ifs[Bi]?.getD none with
       | none => acc
       | some rec =>
-        if frame.length > rec.cfg.mtu then acc else
+        if frame.length > rxLimit rec then acc else
         let img := recvInto rec.img frame zero
         let (st, w, fx, flt) := parseFrame rec.cfg b.glob w rec.st img
         (w, { b with ifs := b.ifs.set! Bi (some { rec with img := img, st := st }), curTx := b.curTx ++ sentOf fx },
@@ -146,7 +149,7 @@ def blockStep (w : World) (b : BlockSide) (toks : List String)
     (getMap M).bind fun fm =>
     (getSess S).bind fun fs =>
     (parseHex hex).bind fun frame =>
-    if frame.length > rec.cfg.mtu then none else
+    if frame.length > rxLimit rec then none else
     let zero := rest == ["zero"]
     let img := recvInto rec.img frame zero
     let op : Int := fOpcode img
